@@ -30,11 +30,18 @@ type Thunk struct {
 type Builtin struct{ Op string } // a builtin passed as a value (e.g. + to apply)
 
 type Env struct {
-	M  map[string]*V
-	Up *Env
+	M   map[string]*V
+	Up  *Env
+	Act *Env // the function activation this scope belongs to (nil: top level)
 }
 
-func NewEnv(up *Env) *Env { return &Env{M: map[string]*V{}, Up: up} }
+func NewEnv(up *Env) *Env {
+	e := &Env{M: map[string]*V{}, Up: up}
+	if up != nil {
+		e.Act = up.Act
+	}
+	return e
+}
 
 func (e *Env) find(s string) *V {
 	for x := e; x != nil; x = x.Up {
@@ -62,6 +69,10 @@ type R struct {
 	InjK     int // the InjK-th (inj) fails (0 = none)
 	Absorbed int // failures absorbed by (try …)
 	Forced   int // thunks forced
+	// observations for the non-triviality rules
+	EscapedCalls int            // closure applied after the activation that created it had returned
+	Activations  map[*N]int     // calls per function literal
+	live         map[*Env]bool  // running activations
 }
 
 func mkList(v []V) V {
@@ -396,6 +407,17 @@ func (r *R) apply(f V, args []V) V {
 	}
 	np := len(c.Fn.Ps)
 	ne := NewEnv(c.Env)
+	ne.Act = ne
+	if r.live == nil {
+		r.live = map[*Env]bool{}
+		r.Activations = map[*N]int{}
+	}
+	if c.Env.Act != nil && !r.live[c.Env.Act] {
+		r.EscapedCalls++
+	}
+	r.Activations[c.Fn]++
+	r.live[ne] = true
+	defer delete(r.live, ne)
 	bind := func(name string, v V) {
 		ne.M[name] = &v
 	}
@@ -454,6 +476,11 @@ func (r *R) builtin(op string, a []V) V {
 				acc -= y
 			case "*":
 				acc *= y
+			}
+			if acc > 1<<52 || acc < -(1<<52) {
+				// numeric corner values are C07's subject; programs that leave the
+				// exactly representable range are skipped, not judged
+				panic(ErrV{"budget", "overflow"})
 			}
 		}
 		return acc
